@@ -558,6 +558,7 @@ def s_case(draw, flags=(0, 0, 0), writer=True, l2=False):
                                 spill + 2 * m, max(spill + 2 * m - 1, 0), spill + m, spill + 3 * m + 1})),
         st.integers(0, 5 * m),
     )
+    small = st.integers(0, m)
     wide = l2 and draw(st.integers(0, 7)) == 0  # one bag, 7..18 partitions: 2- and 3-level dask fold
     nb = 1 if wide else draw(st.sampled_from([1, 1, 1, 2, 2, 3]))
     bags = []
@@ -573,7 +574,9 @@ def s_case(draw, flags=(0, 0, 0), writer=True, l2=False):
         bag = []
         for _ in range(npart):
             nch = draw(st.sampled_from([1, 1, 1, 2] if wide else [1, 1, 1, 2, 2, 3, 4]))
-            bag.append([draw(size) for _ in range(nch)])
+            # a "small" partition cannot be flushed on its own: its bytes travel through .left_data
+            sz = small if draw(st.integers(0, 3)) == 0 else size
+            bag.append([draw(sz) for _ in range(nch)])
         bags.append(bag)
     last = bags[-1][-1]
     if final_multi and len(last) < 2:
@@ -720,7 +723,7 @@ def build(chk: Check) -> None:
             budget_s={"quick": 40, "thorough": 700})
     chk.sub("enum_edge", o_l1_enum, enum=lambda tier: e_small(tier, True), exhaustive_tiers=("quick", "thorough"),
             budget_s={"quick": 40, "thorough": 700})
-    chk.sub("l1_main", o_l1, strategy=s_case((0, 0, 0)), n={"quick": 14000, "thorough": 1000000},
+    chk.sub("l1_main", o_l1, strategy=s_case((0, 0, 0)), n={"quick": 12000, "thorough": 1000000},
             budget_s={"quick": 40, "thorough": 600})
     chk.sub("l1_final_multi", o_l1, strategy=s_case((1, 0, 0)), n={"quick": 6000, "thorough": 400000},
             budget_s={"quick": 25, "thorough": 300})
